@@ -42,7 +42,14 @@ def run_worlds(worlds, jobs=None):
     for r in results:
         if r.world.tag in NOT_MODELLED:
             bad = r.result in ("panic", "abort", "timeout")
-            answers.append("agree " + ("PROPFAIL:c16-" + r.result if bad else "prop-ok") + " not-modelled")
+            fails = ["c16-" + r.result] if bad else []
+            # worlds that state the lengths their images must have after the resize pre-flight
+            for p, n in getattr(r.world, "expect_lengths", {}).items():
+                have = r.after_files.get(p)
+                size = None if have is None else (int(have[0].split()[1].rstrip(b">")) if have[0].startswith(b"<sparse ") else len(have[0]))
+                if r.result == "ok" and size != n:
+                    fails.append("c14-not-extended")
+            answers.append("agree " + ("PROPFAIL:" + ",".join(sorted(set(fails))) if fails else "prop-ok") + " not-modelled")
         else:
             answers.append(next(ans))
     cases = []
@@ -369,11 +376,12 @@ PROPS = {
     "C12": dict(module="TB.Props.C12", theorems=["C12_path", "C12_only_run", "C12_len", "C12_disjoint"], clauses=["c12-"],
                 worlds=lambda t, s: [W.gen_world_dup_path(Rng(s, "c12-dup", 0))] + worlds_default(t, s, "c12", 300, 6000, tweak_threads)
                                     + partial_write_worlds(t, s, "c12-partial")),
-    "C14": dict(module="TB.Props.C14", theorems=["C14_abort", "C14_pass2_ops", "C14_noflag"], clauses=["c14-"],
-                worlds=lambda t, s: [W.gen_world_dup_path_resize(Rng(s, "c14-dup", i)) for i in range(40 if t == "quick" else 400)]
+    "C14": dict(module="TB.Props.C14", theorems=["C14_abort", "C14_pass2_ops", "C14_noflag"], clauses=["c14-", "c16-"],
+                worlds=lambda t, s: [W.gen_world_resize_huge(Rng(s, "c14-huge", i)) for i in range(6 if t == "quick" else 30)]
+                                    + [W.gen_world_dup_path_resize(Rng(s, "c14-dup", i)) for i in range(40 if t == "quick" else 400)]
                                     + [W.gen_world_c14(Rng(s, "c14", i)) for i in range(400 if t == "quick" else 8000)]
                                     + resize_fault_worlds(t, s)),
-    "C15": dict(module="TB.Props.C15", theorems=["C15_sum", "C15_run", "C15_dedup"], clauses=["c15-"], worlds=lambda t, s: worlds_default(t, s, "c15", 300, 6000, tweak_threads),
+    "C15": dict(module="TB.Props.C15", theorems=["C15_sum", "C15_run", "C15_dedup"], clauses=["c15-", "c16-"], worlds=lambda t, s: worlds_default(t, s, "c15", 300, 6000, tweak_threads),
                 runner=lambda ws: run_with_cli(ws, 60 if len(ws) <= 1000 else 600), with_bin=True),
     "C16": dict(module="TB.Props.C16", theorems=["C16_empty", "C16_validate", "C16_piece_total_partial"], clauses=["c16-", "c03-"],
                 worlds=lambda t, s: [W.gen_world_many_segments(Rng(s, "c16-segs", i), n) for i, n in enumerate([3000, 30000] if t == "quick" else [3000, 30000, 60000])]
@@ -383,7 +391,7 @@ PROPS = {
                 runner=lambda ws: run_with_cli(ws, 66 if len(ws) <= 1000 else 660), with_bin=True),
     "C13": dict(module="TB.Props.C13", theorems=["C13_all_accounted", "C13_local", "C13_found_all_ok"], clauses=["c13-", "c01-", "c16-", "c12-", "c04-lost", "c02-walk"], worlds=lambda t, s: fault_worlds(t, s) + partial_write_worlds(t, s, "c13-partial") + meta_fault_worlds(t, s), post=check_meta_faults),
     "C11": dict(module="TB.Props.C11", theorems=["C11_replay", "C11_prefix_sound"], clauses=["c11-", "c02-", "c01-"], worlds=crash_worlds, runner=run_crash_cases),
-    "C17": dict(module="TB.Props.C17", theorems=["C17_dedup_perm"], clauses=["c17-", "c01-", "c02-", "c03-", "c04-", "c12-"], worlds=meta_worlds, post=compare_groups),
+    "C17": dict(module="TB.Props.C17", theorems=["C17_dedup_perm"], clauses=["c17-", "c01-", "c02-", "c03-", "c04-", "c12-", "c16-"], worlds=meta_worlds, post=compare_groups),
 }
 
 def nontrivial(c):
